@@ -463,6 +463,14 @@ class C07(Spec):
             q = mk(6, 'keys2', 0, 'create', 0, 'verdict', 40)
             q.budget = 5400
             qs.append(q)
+        # counted-length entry points: exactly sized buffer of symbolic length 0..3 with arbitrary bytes
+        for sh, sn in ((0, 'notjson'), (1, 'nonobject')):
+            for rt, rn in ((2, 'load_strn'), (5, 'create_strn')):
+                q = ring_q('C07.strn.%s.%s' % (sn, rn), ['SIDE_LOAD', 'SHAPE=%d' % sh, 'ROUTE=%d' % rt, 'PRE=0', 'STRN_SYMBOLIC'],
+                           bounds={'text': 'exactly sized buffer of 0..3 arbitrary bytes (NUL included)', 'document': sn}, checks='memsafe-noconv', budget=900)
+                q.unwindset = {f + '.0': 5 for f in LIST_LOOPS}
+                q.mem_gb = 10 if sn == 'nonobject' else 3
+                qs.append(q)
         for kty in ('RSA', 'EC', 'OKP'):
             qs.append(import_q('C07.item.%s' % kty.lower(), kty, 'PROP_C07'))
         qs.append(Query('C07.values', 'keyring.c', RING_UNITS, defines=['SIDE_VALUES', 'VJ_MAXM=4', 'VJ_SLEN=10', 'VF_CAP=16'],
